@@ -179,7 +179,7 @@ def fake_wait(futures, timeout=None, return_when=None):
 
 
 @contextlib.contextmanager
-def installed(sched_nums, fast_test=None, pickle_envs=True, quiet=True):
+def installed(sched_nums, fast_test=None, pickle_envs=True, quiet=True, quiet_logging=True):
     """Patch the testing module for the duration of the block; yields the ShimState."""
     global CURRENT
     from cvise.utils import testing
@@ -208,11 +208,20 @@ def installed(sched_nums, fast_test=None, pickle_envs=True, quiet=True):
     CURRENT = st
     st.test_script = None
     lvl = logging.root.manager.disable
-    if quiet:
+    root_level = logging.getLogger().level
+    if not logging.getLogger().handlers:
+        logging.getLogger().addHandler(logging.NullHandler())   # keeps logging.info() from calling basicConfig
+    if quiet and quiet_logging:
         logging.disable(logging.CRITICAL)
+    elif not quiet_logging:
+        # handlers attached by the harness see INFO records; nothing is printed
+        logging.getLogger().setLevel(logging.INFO)
+        if not logging.getLogger().handlers:
+            logging.getLogger().addHandler(logging.NullHandler())
     try:
         yield st
     finally:
         logging.disable(lvl)
+        logging.getLogger().setLevel(root_level)
         pebble.ProcessPool, testing.wait, testing.Manager, abstract.ProcessEventNotifier.run_process, CURRENT = saved
         _QUEUES.clear()
